@@ -149,12 +149,16 @@ def float_shape_decls(shapes):
             fmax = 3.4028235e38 if ty == "f32" else 1.7976931348623157e308
             two = s["lk"] != "none" and s["uk"] != "none"
             if two:
+                from .values import f_from_bits
+                def up(x, k, ty=ty):
+                    return f_from_bits(ty, f_bits(ty, x) + k)
                 if s["overflow"]:
-                    pairs = [(-fmax, fmax)]
+                    pairs = [(-fmax, fmax), (float("-inf"), float("inf")), (-fmax, float("inf"))]
                 elif s["absorbed"]:
-                    pairs = [(1000.0, 2000.0), (-1e30, 1e30), (65.0, 66.0)]
+                    # (the last two: three and two representable values apart - the range holds one value when both ends are exclusive)
+                    pairs = [(1000.0, 2000.0), (-1e30, 1e30), (65.0, 66.0), (1e30, up(1e30, 3)), (1000.0, up(1000.0, 2))]
                 else:
-                    pairs = [(1.0, 2.0), (-1.5, 2.5), (0.001, 0.002)]
+                    pairs = [(1.0, 2.0), (-1.5, 2.5), (0.001, 0.002), (1.0, up(1.0, 2)), (0.0, up(0.0, 2)), (-up(0.0, 1), up(0.0, 1))]
                 bounds = [(lo, hi) for lo, hi in pairs]
             else:
                 if s["overflow"]:
@@ -165,6 +169,8 @@ def float_shape_decls(shapes):
                     vals = [1.0, -1.0, 0.0]
                 bounds = [(v, None) if s["lk"] != "none" else (None, v) for v in vals] if (s["lk"] != "none" or s["uk"] != "none") else [(None, None)]
             for lo, hi in bounds:
+                if s["finite"] and s["lk"] == "greater" and lo is not None and lo >= fmax:
+                    continue      # `finite, greater = MAX`: no valid value at all, outside C09's precondition
                 val = []
                 if s["finite"]:
                     val.append({"k": "finite", "b": 0, "fn": "", "p": [], "sp": "lit"})
@@ -280,6 +286,9 @@ def check_C09():
         # two minimum-like rules (not_empty + len_char_min): the shape of the repaired defect 3251cda is always replayed
         both = [o for o in so if {"not_empty", "len_char_min"} <= {r["k"] for r in o["d"]["val"]}]
         both = rng.sample(both, min(24, len(both)))
+        # a case sanitizer together with len_char_max: the shape of the repaired defect (case mappings that add characters)
+        casey = [o for o in so if o not in both and o["expands"] and any(r["k"] == "len_char_max" for r in o["d"]["val"])]
+        both += rng.sample(casey, min(24, len(casey)))
         rest = [o for o in so if o not in both]
         srows = rng.sample(sk, min(50, len(sk))) + both + rng.sample(rest, min(60, len(rest)))
     idecls = instantiate(irows, rng, 1)
